@@ -26,6 +26,7 @@
 #include "cmi_holdable.h"
 #include "cmi_memutils.h"
 #include "cmi_process.h"
+#include "cmi_verif.h"
 
 /*
  * cmb_resource_create - Allocate memory for a resource object.
@@ -256,6 +257,7 @@ static void wakeup_event_preempt(void *vp, void *arg)
     cmb_assert_debug(vp != NULL);
 
     struct cmb_process *pp = (struct cmb_process *)vp;
+    CMI_VERIF_EMIT("Wake.preempt", 0u, pp, NULL, (int64_t)arg, 0.0);
     cmb_logger_info(stdout, "Wakes %s signal %" PRIi64,
                 pp->name, (int64_t)arg);
 
